@@ -59,6 +59,16 @@ type ReplayFile struct {
 	ShrinkTried int             `json:"shrink_candidates_tried,omitempty"`
 	ReplayCmd   string          `json:"replay_cmd"`
 	Binary      string          `json:"binary"`
+	// Context identifies the runs that preceded this one in its OS process. A violation that
+	// depends on state dst keeps across calls (a package-level pool or cache warmed by earlier
+	// runs) replays only after the same history: `replay -context` re-executes those runs first.
+	Context *BatchContext `json:"context,omitempty"`
+}
+
+type BatchContext struct {
+	BatchSeed uint64 `json:"batch_seed"`
+	First     int    `json:"first"`
+	Index     int    `json:"index"`
 }
 
 type BatchStats struct {
@@ -239,7 +249,8 @@ func cmdBatch(args []string) {
 		}
 		if run.Viol != nil {
 			rf := &ReplayFile{Property: *prop, Seed: s, Tier: *tier, Tape: t.Used(), Violation: run.Viol,
-				Description: run.Desc, Events: tail(run.Events, 200), Binary: binaryName()}
+				Description: run.Desc, Events: tail(run.Events, 200), Binary: binaryName(),
+				Context: &BatchContext{BatchSeed: *seed, First: *first, Index: i}}
 			p := filepath.Join(*out, fmt.Sprintf("viol-%d-%d.json", *id, i))
 			rf.ReplayCmd = fmt.Sprintf("./check replay %s", p)
 			writeJSON(p, rf)
@@ -297,6 +308,7 @@ func cmdReplay(args []string) {
 	fs := flag.NewFlagSet("replay", flag.ExitOnError)
 	asJSON := fs.Bool("json", false, "print outcome as json")
 	verbose := fs.Bool("v", false, "print description and events")
+	withContext := fs.Bool("context", false, "first re-execute the runs that preceded this one in its batch process")
 	fs.Parse(args)
 	if fs.NArg() != 1 {
 		die(2, "usage: replay FILE")
@@ -310,6 +322,12 @@ func cmdReplay(args []string) {
 		if err := e.Init(); err != nil {
 			die(2, "engine init: %v", err)
 		}
+	}
+	if *withContext && rf.Context != nil {
+		for i := rf.Context.First; i < rf.Context.Index; i++ {
+			runOne(e, tape.New(tape.Mix(rf.Context.BatchSeed, uint64(i))), rf.Tier)
+		}
+		fmt.Printf("REPLAY-CONTEXT re-executed runs %d..%d of batch seed %d first\n", rf.Context.First, rf.Context.Index-1, rf.Context.BatchSeed)
 	}
 	t := tape.Replay(rf.Seed, rf.Tape)
 	if rf.Tape == nil {
